@@ -230,19 +230,19 @@ def c13(res, tier, seed):
             jobs += K(h, ("none",), timeout=900)
         for h in C13_RANGE:
             jobs += K(h, ("std", "none"), timeout=600)
-        for h in ("c13r_t24a", "c13r_t24b"):
-            jobs += K(h, ("std",), timeout=1500)
+        for h in C13_WIRED:
+            jobs += K(h, ("std", "none"), timeout=900)
     else:
         for h in C13_QUICK:
             jobs += K(h, ALL, timeout=1800)
         for h in C13_RANGE:
             jobs += K(h, ALL, timeout=900)
-        # 8-14 GB of resident memory each: a second phase with at most two CBMC processes per configuration
+        # the real decoder at 12 / 16 characters holds 8-18 GB: a second phase with at most two CBMC processes per configuration
         for h in C13_LONG:
             heavy += K(h, ("std", "none"), timeout=2700, mem_gb=30)
         heavy += K("c13_t14_k16", ("none",), timeout=2700, mem_gb=30)
         for h in C13_WIRED:
-            heavy += K(h, ("std", "none"), timeout=2700, mem_gb=30)
+            jobs += K(h, ALL, timeout=1800)
     run_kani_jobs(res, jobs)
     if heavy:
         run_kani_jobs(res, heavy, workers=4)
@@ -257,8 +257,9 @@ def c13(res, tier, seed):
                         "all other payload bits symbolic; the real decoder on the 20-character fields exceeds 30 GB / 45 min in CBMC and is not run",
                         "fixed-width fields (24 A name, 24 B vendor / model / call sign, 19 and 21 names, 5 call sign / name / destination incl. a "
                         "9-character truncation): harnesses c13r_* with the decoder replaced by raw_text_stub (character i = 0x21 + 6-bit value i of the "
-                        "requested range; natively the real decoder runs and is compared with the reference decode + trim): which bits reach the "
-                        "decoder, whole payload symbolic; quick runs the two type-24 harnesses, thorough all six"]
+                        "requested range; natively the real decoder runs and is compared with the reference decode + trim; the characters of the ranges are assumed "
+                        "to be neither '@' nor ' ', so that nothing is trimmed and counter-examples reproduce natively): which bits reach the "
+                        "decoder, whole payload symbolic (10-50 s each once the stub builds its string in one piece: pushing symbolic chars into a String cost 50 GB)"]
     return {"functions_encoded": ["parsers::parse_6bit_ascii, sixbit_to_ascii, nom::multi::count / nom_noalloc::count, str::trim_start/trim_end_matches/trim_end",
                                   "the carrying message parsers"],
             "bounds": {"characters": "real decoder: <= 8 quick, <= 12 (16 no-alloc) thorough, all 64^k strings, all other payload bits symbolic; range / wiring harnesses: 20-character fields and texts up to the 1008-bit maximum", "unwind": "k+2"},
